@@ -63,6 +63,7 @@ def run(ctx):
             reqs.append({"op": "writer.run", "header_lines": header, "mode": mode, "assume_sorted": not sort, "ops": ops,
                          "floats": float_table(texts)})
             meta.append(([specs[k] for k in perm], order, contigs or [], typed, sort))
+    big_file_case(ctx, out, rng)
     mo = ctx.driver.run(reqs)
     for r, m, (specs, order, contigs, typed, sort) in zip(reqs, mo, meta):
         out.evaluations += 1
@@ -117,6 +118,36 @@ def run(ctx):
         if len(out.samples) < 3 and sort and len(specs) >= 3:
             out.sample({"header": r["header_lines"], "records_in": specs, "body_out": [b.split("\t")[:6] for b in body][:5] if not typed else "typed"})
     return out
+
+
+def big_file_case(ctx, out, rng):
+    """More records than the writer keeps in memory (10000): several spilled runs with interleaving key ranges are merged at close()."""
+    from maflib.header import MafHeader
+    from maflib.record import MafRecord
+    from maflib.validation import ValidationStringency as VS
+    from maflib.writer import MafWriter
+    n = 20000 + rng.randrange(600, 5000)
+    header = ["#version gdc-1.0.0", "#annotation.spec lab", "#sort.order Coordinate"]
+    buf = impl.RecordingHandle()
+    w = MafWriter.from_fd(buf, MafHeader.from_lines(header, validation_stringency=VS.Silent), validation_stringency=VS.Silent, assume_sorted=False)
+    starts = list(range(n))
+    # a deterministic interleaving: consecutive records fall into different residue classes, so the runs overlap
+    starts.sort(key=lambda s: ((s * 7919) % 10007, s))
+    out.evaluations += 1
+    for s0 in starts:
+        w += MafRecord.from_line("G\tchr1\t%d\t%d" % (s0, s0), column_names=["Hugo_Symbol", "Chromosome", "Start_Position", "End_Position"],
+                                 validation_stringency=VS.Silent)
+    w.close()
+    body = [l for l in buf.text().split("\n")[4:] if l]
+    got = [int(l.split("\t")[2]) for l in body]
+    if sorted(got) != list(range(n)):
+        out.failures.append({"what": "a %d-record sorting write lost or duplicated records" % n, "kind": "not-permutation", "n": n})
+    elif got != sorted(got):
+        k = next(i for i in range(len(got) - 1) if got[i] > got[i + 1])
+        out.failures.append({"what": "a %d-record sorting write (3+ spilled runs) is out of order at body line %d" % (n, k + 1), "kind": "not-sorted",
+                             "n": n, "around": got[k - 1:k + 3]})
+    out.nontrivial.add(("big", n))
+    out.distribution["big_file_records"] += n
 
 
 def search(ctx):
